@@ -33,7 +33,7 @@ func (c *Ctx) loadCorpus(specs []corpusSpec, want func(*SemRec) bool) []*SemRec 
 		} else if res.MaxOutdegree > 1 {
 			c.infra("specification is not deterministic on %s: a state has %d successors", s.module, res.MaxOutdegree)
 		}
-		k := 0
+		var all []*SemRec
 		forEachLine(f, func(line []byte) error {
 			var rec SemRec
 			if json.Unmarshal(line, &rec) != nil || (rec.Status != "done" && rec.Status != "error") {
@@ -42,12 +42,21 @@ func (c *Ctx) loadCorpus(specs []corpusSpec, want func(*SemRec) bool) []*SemRec 
 			if want != nil && !want(&rec) {
 				return nil
 			}
-			k++
-			if (k+c.Seed)%s.every == 0 {
-				out = append(out, &rec)
+			// random programs may run into the open C02 finding (string + boolean): the specification expects an
+			// operand error there; such programs are left to C02's own cells
+			if s.module == "FamWild" && rec.Status == "error" && rec.Diags[0].Kind == "operand" {
+				return nil
 			}
+			all = append(all, &rec)
 			return nil
 		})
+		// TLC emits in a worker-dependent order: sample from the sorted list so that a seed selects the same programs
+		sort.Slice(all, func(i, j int) bool { return all[i].Key < all[j].Key })
+		for k, rec := range all {
+			if (k+c.Seed)%s.every == 0 {
+				out = append(out, rec)
+			}
+		}
 	}
 	return out
 }
